@@ -30,7 +30,7 @@ func TestVerif_C30(t *testing.T) {
 		vh.Inconclusive(t, "start server: %v", err)
 	}
 	defer env.srv.Stop()
-	vh.Check(t, "twins", 120, 500, func(rt *rapid.T) {
+	vh.Check(t, "twins", 120, 300, func(rt *rapid.T) {
 		c30Case(rt, env, rec)
 	})
 }
